@@ -20,6 +20,8 @@ CHECKS = {
          "every point of the finite (function, kind, annotation, algorithm, arity) lattice is resolved with the live rule table and, for admitted algorithms, executed through the public entry point; AmbiguousLookupError anywhere and NotFoundLookupError on admitted tuples are violations"),
  "C13": ("(operator family, size, right-hand side, x0, tol, entry point) x every truncation m: each m-step run is a checked state; independent Krylov least-squares optimum (exact rationals for real integer systems n<=6)",
          "for every enumerated system and every iteration cap m the returned iterate is compared per column with the independently computed minimum of ||b - A x|| over x0 + K_m, plus monotonicity in m, convergence at full dimension, the cap on products with A and non-mutation of inputs"),
+ "C06": ("invertible operator terms (every kind with/without an inverse rule, PSD/Unitary declarations, depth<=2 nestings) x 8 algorithm settings x 4 right-hand sides x {inv@b, solve, dense inverse, left product, transpose, adjoint}; Auto switch at 10^6 entries",
+         "every enumerated (invertible term, algorithm) pair is solved through inv and solve for 4 right-hand sides and judged by the relative residual against the reference matrix; inv(A) is densified and, on direct paths, transposed / left-multiplied and compared with the reference inverse"),
 }
 PENDING = {}
 props = [json.loads(l) for l in open(os.path.join(ROOT, "properties.jsonl"))]
